@@ -417,6 +417,25 @@ EXTRA_CASES = [
      "package p\n\nfunc h(xs []int) {\n\tf(1, 2)\n\tf(1, xs...)\n\tf(xs...)\n\tf()\n}\n"),
     ("spread-both", "@@\nvar s expression\n@@\n-f(..., s...)\n+g(..., s...)\n",
      "package p\n\nfunc h(xs []int) {\n\tf(1, xs)\n\tf(1, xs...)\n\tf(xs...)\n\tf(2, 3, mk()...)\n}\n"),
+    # "for ... {" over every kind of loop, each alone in its block (a statement pattern matches once per block)
+    ("for-dots-kinds", "@@\n@@\n for ... {\n-  a()\n+  A()\n   ...\n }\n",
+     "package p\n\nfunc h1(n int) {\n\tfor i := 0; i < n; i++ {\n\t\ta()\n\t\tb()\n\t}\n}\n\nfunc h2(m map[int]int) {\n\tfor k, v := range m {\n\t\ta()\n\t\tuse(k, v)\n\t}\n}\n\n"
+     "func h3(ch chan int) {\n\tfor range ch {\n\t\ta()\n\t}\n}\n\nfunc h4() {\n\tfor {\n\t\ta()\n\t}\n}\n\nfunc h5() {\n\tfor cond() {\n\t\ta()\n\t\tc()\n\t}\n}\n\n"
+     "func h6(xs []int) {\n\tif ok {\n\t\tfor _, x := range xs {\n\t\t\ta()\n\t\t\tuse(x)\n\t\t}\n\t}\n\tswitch {\n\tcase ok:\n\t\tfor i := range xs {\n\t\t\ta()\n\t\t\tuse(i)\n\t\t}\n\t}\n}\n\n"
+     "func h7(xs []int) {\n\tprepare()\n\tfor _, x := range xs {\n\t\tb()\n\t}\n\tfor _, x := range xs {\n\t\ta()\n\t}\n}\n"),
+    # an elided run of fields with embedded ones, next to a renamed field
+    ("fields-embedded", "@@\n@@\n type Server struct {\n   ...\n-  Name string\n+  FullName string\n   ...\n }\n",
+     "package p\n\ntype Server struct {\n\tsync.Mutex\n\tio.Reader\n\t*Config\n\tName string\n\tpkg.Embedded\n\tPort int\n}\n\ntype Other struct {\n\tName string\n}\n"),
+    ("iface-embedded", "@@\n@@\n type Store interface {\n   ...\n-  Get(k string) string\n+  Get(ctx Context, k string) string\n   ...\n }\n",
+     "package p\n\ntype Store interface {\n\tio.Closer\n\tfmt.Stringer\n\tGet(k string) string\n\tPut(k, v string)\n}\n"),
+    # the same metavariable twice on the '+' side, bound to code in which the presence of a token is a position
+    ("plus-twice-pos", "@@\nvar x expression\n@@\n-foo(x)\n+bar(x, x)\n",
+     "package p\n\nfunc h(a, b []int) {\n\tfoo(append(a, b...))\n\tfoo(func() { type N = int; var (u N); _ = u })\n\tfoo(func() (int) { return 1 })\n\tfoo(g(a, b...))\n\tfoo(1)\n}\n"),
+    ("plus-thrice", "@@\nvar x, y expression\n@@\n-pair(x, y)\n+triple(y, x, y, x)\n",
+     "package p\n\nfunc h(a, b []int) {\n\tpair(append(a, b...), struct{ A, B int }{1, 2})\n\tpair(<-ch, xs[1:2:3])\n}\n"),
+    # an instance inside a site whose own replacement does not fit its slot: the inner one is still rewritten
+    ("nested-in-unfit", "@@\nvar x expression\n@@\n-foo(x)\n+x\n",
+     "package p\n\nfunc h() {\n\tdefer foo(foo(a) + b)\n\tgo foo(wrap(foo(c)))\n\tdefer foo(d)\n\t_ = foo(foo(e))\n}\n"),
     ("unary-star", "@@\nvar p expression\n@@\n-*p = nil\n+reset(p)\n",
      "package p\n\nfunc h() {\n\t*a = nil\n\t*b.c = nil\n\t**d = nil\n\ta = nil\n\t*a = 0\n}\n"),
     ("slice-expr", "@@\nvar s, n expression\n@@\n-s[:n]\n+head(s, n)\n",
